@@ -866,6 +866,8 @@ int EGLPNUM_TYPENAME_ILLsimplex (
 	EGLPNUM_TYPENAME_init_internal_lpinfo (lp);
 	rval = EGLPNUM_TYPENAME_build_internal_lpinfo (lp);
 	CHECKRVALG (rval, CLEANUP);
+	/* also when this call ends before any pricing: QSopt_pivotin_* may follow */
+	EGLPNUM_TYPENAME_ILLprice_sync_norm_dimensions (lp, pinf);
 
 	rval = EGLPNUM_TYPENAME_ILLsvector_alloc (&wz, lp->nrows);
 	CHECKRVALG (rval, CLEANUP);
